@@ -82,6 +82,16 @@ Record method := Md { m_verb : meth; m_params : list fielddecl; m_query : list q
 Inductive restnode := RNode (segs:list pathseg) (attribs:list entry) (children:list restchild)
 with restchild := RMethod (m:method) | RSub (n:restnode) | RAnno (a:anno).
 
+(* one line of a `.. * <- *:` block (grammar collector_stmts; the [ ... ] is mandatory):
+     Target <- Endpoint [..]   |   EndpointName [..]   |   VERB /path [..]
+   The fourth grammar form `Subscriber <- Publisher -> Event [..]` is never recognised as such: `<-` switches the
+   lexer to its ARGS mode, which reads `Publisher -> Event` as ONE endpoint text, so the line is a CCall whose
+   endpoint is that text (exactly the name a subscription gives its call in the publisher's event). *)
+Inductive centry :=
+| CCall (target:list string) (ep:string) (es:list entry)
+| CAction (name:string) (es:list entry)
+| CHttp (verb:meth) (path:string) (es:list entry).
+
 Inductive titem := TField (f:fielddecl) | TAnno (a:anno).
 Record umember := Um { um_coll : coll; um_ty : tyexpr; um_size : sizespec }.
 Inductive member :=
@@ -95,6 +105,7 @@ Inductive member :=
 | MRest (node:restnode)
 | MMixin (a:list string)
 | MEvent (n:string) (params:list fielddecl) (attribs:list entry) (body:list xstmt)
-| MSubscribe (a:list string) (n:string) (attribs:list entry) (body:list xstmt).
+| MSubscribe (a:list string) (n:string) (attribs:list entry) (body:list xstmt)
+| MCollector (entries:list centry).
 Record block := Bk { b_app : list string; b_long : option string; b_attribs : list entry; b_members : list member }.
 Definition spec := list (list block).      (* one list of blocks per file, in flatten order *)
